@@ -16,7 +16,7 @@ from vf import prog
 from vf.examples_table import EXAMPLES, resolve, regime
 
 PROP = "C10"
-CASES = {"quick": 2000, "thorough": 16000}
+CASES = {"quick": 2000, "thorough": 50000}
 RULE = ("rate: example drawn from the table (vf/examples_table.py, %d examples with a closed form) with parameters in its "
         "documented range; equiv: complexified formulation vs base example with generated (L, mu, gamma, epsilon, n, d).  "
         "Non-trivial = parameter tuple different from the one pinned in tests/test_examples.py (all generated tuples are "
